@@ -18,7 +18,7 @@ from pyabv.ref.parse import Lit
 
 RULE = (
     "cases = configurations (id family x population offset x salt or salt pair x weight vector), each evaluated on a "
-    "population of distinct ids (20 000 quick / 100 000 thorough): sequential integers (offsets to 10^12), zero-padded "
+    "population of distinct ids (20 000 quick / 100 000 thorough): sequential integers (offsets to 10^12, and 64-bit / snowflake-style offsets 2^53 .. 10^30), zero-padded "
     "decimals, random and time-ordered UUID-like strings, e-mail-like strings, hex session ids, two- and three-field keys "
     "with a low-cardinality first field. Goodness of fit per configuration, independence per salt pair (absent / empty / "
     "ASCII / non-ASCII / differing in the last character / one a prefix of the other). distinct_nontrivial = distinct "
@@ -69,6 +69,7 @@ def family(name, rnd, n, offset):
     raise ValueError(name)
 
 
+BIG_OFFSET_FAMILIES = {"sequential-int", "sequential-str", "two-field", "three-field", "email", "common-prefix"}
 FAMILIES = ["sequential-int", "sequential-str", "zero-padded", "uuid-random", "uuid-time-ordered", "email", "hex-session",
             "two-field", "three-field", "common-prefix", "float-ids"]
 
@@ -102,6 +103,9 @@ def run(ctx):
     for ci in range(nconf):
         fam = FAMILIES[(ci * max(1, ctx.nshards) + ctx.shard) % len(FAMILIES)] if ci < 2 * len(FAMILIES) else rnd.choice(FAMILIES)
         offset = rnd.choice([0, 1, 1000, 10**6, 10**9, 10**12, rnd.randint(0, 10**12)])
+        if fam in BIG_OFFSET_FAMILIES and rnd.random() < 0.45:
+            # snowflake-style / 64-bit ids: beyond 2^53, where a detour through float would merge neighbours
+            offset = rnd.choice([2**53, 2**60, 17 * 10**17 + rnd.randint(0, 10**15), 2**63 - 50000, 2**64, 10**20, 10**30])
         pop = family(fam, rnd, N, offset)
         fields = sorted(pop[0])
         vec = VECTORS[ci % len(VECTORS)] if rnd.random() < 0.7 else rnd.choice(VECTORS)
